@@ -23,6 +23,11 @@ class OracleResult:
                 return
         self.violations.append({'signature': signature, 'witness': witness, 'what': what, 'count': 1})
 
+    def enough(self):
+        """A failing check does bounded work: once a violation has been seen often enough (or several
+        different ones were found) the search stops — one replay per signature is all that is reported."""
+        return len(self.violations) >= 4 or any(v['count'] >= 20 for v in self.violations)
+
     def merge(self, other):
         self.evaluations += other.evaluations
         self.nontrivial |= {(other.prop,) + (x if isinstance(x, tuple) else (x,)) for x in other.nontrivial}
